@@ -30,6 +30,8 @@ Suppressions:
         global state or complex return types
 """
 
+from pathlib import Path
+
 from src.core.types import Severity, Violation
 
 from . import context_filter
@@ -42,11 +44,23 @@ from .storage import StoredComparison, StoredPattern, StringlyTypedStorage
 # --- Pure helper functions for filtering ---
 
 
-def _filter_by_ignore(violations: list[Violation], ignore: list[str]) -> list[Violation]:
-    """Filter violations by ignore patterns."""
+def _filter_by_ignore(
+    violations: list[Violation], ignore: list[str], project_root: Path | None = None
+) -> list[Violation]:
+    """Filter violations by ignore patterns (matched against the path inside the project)."""
     if not ignore:
         return violations
-    return [v for v in violations if not is_ignored(v.file_path, ignore)]
+    return [v for v in violations if not is_ignored(_path_in_project(v.file_path, project_root), ignore)]
+
+
+def _path_in_project(file_path: str, project_root: Path | None) -> str:
+    """Path rooted at "/" inside the project, or the path as given when that cannot be told."""
+    if project_root is None:
+        return file_path
+    try:
+        return str(Path("/") / Path(file_path).resolve().relative_to(Path(project_root).resolve()))
+    except (ValueError, OSError):
+        return file_path
 
 
 def _is_allowed_value_set(values: set[str], config: StringlyTypedConfig) -> bool:
@@ -347,6 +361,7 @@ class ViolationGenerator:
         storage: StringlyTypedStorage,
         rule_id: str,
         config: StringlyTypedConfig,
+        project_root: Path | None = None,
     ) -> list[Violation]:
         """Generate violations from storage.
 
@@ -354,6 +369,7 @@ class ViolationGenerator:
             storage: Pattern storage instance
             rule_id: Rule identifier for violations
             config: Stringly-typed configuration with thresholds
+            project_root: Project root, so that ignore patterns see project-relative paths
 
         Returns:
             List of violations for patterns appearing in multiple files
@@ -367,7 +383,7 @@ class ViolationGenerator:
         violations.extend(self._generate_comparison_violations(storage, config, covered_vars))
 
         # Apply path-based ignore patterns from config
-        violations = _filter_by_ignore(violations, config.ignore)
+        violations = _filter_by_ignore(violations, config.ignore, project_root)
 
         # Apply inline ignore directives via IgnoreChecker
         violations = self._ignore_checker.filter_violations(violations)
